@@ -213,9 +213,11 @@ class CSSNamespaceRule(cssrule.CSSRule):
 
             # set all
             if wellformed:
+                # may be refused (the URI of a rule cannot be changed) so
+                # it has to come first
+                self.namespaceURI = new['uri']
                 self.atkeyword = new['keyword']
                 self._prefix = new['prefix']
-                self.namespaceURI = new['uri']
                 self._setSeq(newseq)
 
     cssText = property(
